@@ -20,6 +20,7 @@ class Verdict:
         self.n = 0
         self.rejects = []      # dicts: id, clause, detail, obs
         self.tlc = None
+        self.skipped = 0       # observations outside the frozen model (unknown pattern / rule): not judged
 
 
 _POD_FILE = None
@@ -47,13 +48,18 @@ def judge(module, observations, cfg=None, env=None, timeout=900, workers=2, chun
         if env:
             e0.update(env)
         jobs = []
-        for c0 in range(0, len(obs), chunk):
-            part = obs[c0:c0 + chunk]
+        # observations that mention a pattern or rule the frozen model has no name for (the rule base was extended) cannot be
+        # judged by it: they are left out (and counted), the others keep their position as identifier
+        from . import qa as _qa
+        numbered = [(i + 1, o) for i, o in enumerate(obs) if not _qa.outside_model(o)]
+        v.skipped = len(obs) - len(numbered)
+        for c0 in range(0, len(numbered), chunk):
+            part = numbered[c0:c0 + chunk]
             path = os.path.join(tmp, "obs_%d.ndjson" % c0)
             with open(path, "w") as fd:
-                for i, o in enumerate(part):
+                for oid, o in part:
                     o = dict(o)
-                    o["id"] = c0 + i + 1
+                    o["id"] = oid
                     fd.write(json.dumps(o, ensure_ascii=True) + "\n")
             jobs.append((c0, len(part), path))
 
